@@ -175,6 +175,65 @@ def greedy_exact(w, cur_obs, v):
     return [k[0] for k in kept], near, ties
 
 
+# ---- the same greedy rule judged with an INDEPENDENT distance ------------------------------
+# greedy_exact above (and the Coq model, through the case's distance table) take the
+# implementation's own haversine_distance_meters values as given: they cannot see a hop that the
+# implementation MEASURES differently from the sphere (a longitude difference taken without the
+# wrap at +-180, a planar shortcut near a pole, ...).  This reference measures every hop itself:
+# unit vectors from its own trigonometry, angle = atan2(|a x b|, a . b), its own radius constant.
+# It never compares a speed that lies within REF_MARGIN of the limit (such a step is skipped and
+# counted), so the two distance formulas / float roundings can never disagree on a verdict.
+R_REF = 6_371_000.0
+REF_MARGIN = 0.01
+
+
+def unit_vec(lon, lat):
+    lo, la = math.radians(lon), math.radians(lat)
+    return (math.cos(la) * math.cos(lo), math.cos(la) * math.sin(lo), math.sin(la))
+
+
+def gc_dist_ref(p, q):
+    a, b = unit_vec(*p), unit_vec(*q)
+    cx = (a[1] * b[2] - a[2] * b[1], a[2] * b[0] - a[0] * b[2], a[0] * b[1] - a[1] * b[0])
+    return R_REF * math.atan2(math.sqrt(cx[0] ** 2 + cx[1] ** 2 + cx[2] ** 2), a[0] * b[0] + a[1] * b[1] + a[2] * b[2])
+
+
+def hop_class(p, q):
+    """which line a hop p -> q (lon, lat) crosses: 'anti' (+-180), 'prime' (0), 'pole' (either end
+    within 1 degree of a pole), or None"""
+    if max(abs(p[1]), abs(q[1])) > 89.0:
+        return 'pole'
+    if abs(p[0] - q[0]) > 180:
+        return 'anti'
+    if (p[0] < 0) != (q[0] < 0):
+        return 'prime'
+    return None
+
+
+def greedy_indep(w, cur_obs, v):
+    """kept ids by the property's greedy rule with the reference's own distances, plus the kept hops;
+    None when an examined hop's speed is within REF_MARGIN of the limit"""
+    kept, hops = [cur_obs[0]], []
+    for x in cur_obs[1:]:
+        p = kept[-1]
+        dt_us = x[1] - p[1]
+        if dt_us <= 0:
+            continue
+        cp, cx = w.coords[p[5]], w.coords[x[5]]
+        pp, px = (cp.longitude, cp.latitude), (cx.longitude, cx.latitude)
+        if pp == px:
+            ok = 0 <= v                      # same place: speed exactly 0
+        else:
+            sp = gc_dist_ref(pp, px) / (dt_us / SEC)
+            if abs(sp - v) <= REF_MARGIN * max(sp, abs(v)):
+                return None
+            ok = sp < v
+        if ok:
+            kept.append(x)
+            hops.append((pp, px))
+    return [k[0] for k in kept], hops
+
+
 def run_case(spec):
     """spec: {'items': [...], 'ops': [...]} (JSON-able).  Drives the implementation, returns
     (gallina literal or None, meta, failures of the property itself, counters)"""
@@ -185,7 +244,8 @@ def run_case(spec):
         w.register(sh)
         shapes.append(sh)
     raws = [raw_lit(w, sh, w.idmap[id(sh)]) for sh in shapes]
-    fails, stats = [], {'near_ties': 0, 'exact_ties': 0, 'merged': 0, 'steps': 0, 'classes': []}
+    fails, stats = [], {'near_ties': 0, 'exact_ties': 0, 'merged': 0, 'steps': 0, 'classes': [],
+                    'ref_judged': 0, 'ref_skipped': 0, 'ref_hops': {'anti': 0, 'prime': 0, 'pole': 0}, 'ref_dropped': 0}
     r0 = guarded(lambda: Track(list(shapes)))
     first = res_ids(w, r0)
     meta = {'spec': spec, 'first': first, 'steps': []}
@@ -344,6 +404,22 @@ def run_case(spec):
                 fails.append(({'slice': 'slice_spec', 'fij': 'fij_spec', 'add': 'ops_sorted/add', 'fdt': 'filter_by_dt',
                                'fiv': 'filter_by_dt', 'ftime': 'filter_by_time_spec'}.get(kind, kind),
                               f'{op}: implementation gives {rid}, the property demands {exp}'))
+            if kind == 'fij' and cur_obs and rid[0] == 'Ok':
+                ref = greedy_indep(w, cur_obs, op[1])
+                if ref is None:
+                    stats['ref_skipped'] += 1
+                else:
+                    stats['ref_judged'] += 1
+                    stats['ref_dropped'] += len(cur_obs) - len(ref[0])
+                    for a, b in ref[1]:
+                        hc = hop_class(a, b)
+                        if hc:
+                            stats['ref_hops'][hc] += 1
+                    if rid[1] != ref[0]:
+                        fails.append(('fij_spec (independent great-circle reference)',
+                                      f'{op}: implementation keeps {rid[1]}; measuring every hop on the unit sphere '
+                                      f'(no hop within {REF_MARGIN:.0%} of the limit) the reachable shapes are {ref[0]}; '
+                                      f'positions {[(w.coords[o[5]].longitude, w.coords[o[5]].latitude) for o in cur_obs]}'))
             steps_lit.append(f'({lit}, {blit(adv)}, {res_ids_lit(rid)}, {news_lit}, {hd_lit})')
             meta['steps'].append({'op': op, 'result': rid})
             if adv and r[0] == 'Ok':
